@@ -7,36 +7,65 @@ Each results line comes from tools/eval_mutant.py --confirm (one per change).
 import json, os, re, shutil, sys
 
 VERIF = "/verif"
+def name_of(m, r):
+    mm = re.search(r"wt-(C\d+)([bcd]?)/MUTANTS/m(\d)", m)
+    ms = re.search(r"seeded/(C\d+)-(w\d)m(\d)$", m)
+    if mm:
+        return mm.group(1), f"{mm.group(1)}-{ {'': 'w1', 'b': 'w2', 'c': 'w3', 'd': 'w5'}[mm.group(2)] }m{mm.group(3)}"
+    if ms:
+        return ms.group(1), f"{ms.group(1)}-{ms.group(2)}m{ms.group(3)}"
+    m4 = re.search(r"wt-M(\w+)/MUTANTS/m(\d)", m)
+    if m4:
+        # wave 4: written per source module, the property is named by the author (r['primary'])
+        return r["primary"], f"{r['primary']}-w4{m4.group(1)}m{m4.group(2)}"
+    m5 = re.search(r"seeded/(C\d+)-w4(\w+)m(\d)$", m)
+    if m5:
+        return m5.group(1), f"{m5.group(1)}-w4{m5.group(2)}m{m5.group(3)}"
+    return None, None
+
+
+# Rows are merged by change name in file order: confirmation flags are kept from the pass that
+# has them; the checks' verdict comes from the latest pass. A latest pass that ran only the
+# primary check ("scope": "primary-only") replaces the primary's entry and keeps the other
+# checks' entries of the previous full pass.
 rows = {}
+src = {}
 for f in sys.argv[1:]:
     for l in open(f):
         l = l.strip()
         if not l:
             continue
         r = json.loads(l)
-        rows[r["mutant"]] = r  # later files override earlier ones
+        if r.get("error"):
+            continue
+        pid, name = name_of(r["mutant"], r)
+        if not name:
+            continue
+        prev = rows.get(name, {})
+        cur = dict(prev)
+        for k in ("suite_passes_with", "suite_out", "demo_fails_with", "demo_passes_without"):
+            if k in r:
+                cur[k] = r[k]
+        if "caught_by" in r:
+            if r.get("scope") == "primary-only":
+                cb = dict(prev.get("caught_by", {}))
+                cb.pop(pid, None)
+                cb.update(r["caught_by"])
+                cur["caught_by"] = cb
+                cur["also_from_previous_pass"] = True
+            else:
+                cur["caught_by"] = r["caught_by"]
+                cur["also_from_previous_pass"] = False
+            cur["primary_caught"] = pid in cur["caught_by"]
+        cur["pid"] = pid
+        if os.path.isdir(r["mutant"]) and os.path.exists(os.path.join(r["mutant"], "patch.diff")):
+            src[name] = r["mutant"]
+        rows[name] = cur
 
 out = []
-for m, r in sorted(rows.items()):
-    mm = re.search(r"wt-(C\d+)([bcd]?)/MUTANTS/m(\d)", m)
-    ms = re.search(r"seeded/(C\d+)-(w\d)m(\d)$", m)
-    if mm:
-        pid, wave, k = mm.group(1), mm.group(2), mm.group(3)
-        name = f"{pid}-{ {'': 'w1', 'b': 'w2', 'c': 'w3', 'd': 'w5'}[wave] }m{k}"
-    elif ms:
-        pid, k = ms.group(1), ms.group(3)
-        name = f"{pid}-{ms.group(2)}m{k}"
-    elif re.search(r"wt-M(\w+)/MUTANTS/m(\d)", m) or re.search(r"seeded/(C\d+)-w4(\w+)m(\d)$", m):
-        # wave 4: written per source module, the property is named by the author (r['primary'])
-        pid = r["primary"]
-        m4 = re.search(r"wt-M(\w+)/MUTANTS/m(\d)", m)
-        if m4:
-            name = f"{pid}-w4{m4.group(1)}m{m4.group(2)}"
-        else:
-            m5 = re.search(r"seeded/(C\d+)-w4(\w+)m(\d)$", m)
-            name = f"{m5.group(1)}-w4{m5.group(2)}m{m5.group(3)}"
-    else:
-        continue
+for name, r in sorted(rows.items()):
+    pid = r["pid"]
+    m = src.get(name, os.path.join(VERIF, "seeded", name))
     valid = bool(r.get("suite_passes_with") and r.get("demo_fails_with") and r.get("demo_passes_without"))
     if not valid:
         print("skip (not confirmed):", name, r.get("suite_passes_with"), r.get("demo_fails_with"), r.get("demo_passes_without"), r.get("error"))
@@ -44,10 +73,10 @@ for m, r in sorted(rows.items()):
     d = os.path.join(VERIF, "seeded", name)
     os.makedirs(d, exist_ok=True)
     for fn in ("patch.diff", "demo.rs", "README.md"):
-        src = os.path.join(m, fn)
-        if os.path.exists(src) and os.path.abspath(src) != os.path.abspath(os.path.join(d, fn)):
-            shutil.copy(src, os.path.join(d, fn))
-    readme = open(os.path.join(m, "README.md")).read() if os.path.exists(os.path.join(m, "README.md")) else ""
+        s_ = os.path.join(m, fn)
+        if os.path.exists(s_) and os.path.abspath(s_) != os.path.abspath(os.path.join(d, fn)):
+            shutil.copy(s_, os.path.join(d, fn))
+    readme = open(os.path.join(d, "README.md")).read() if os.path.exists(os.path.join(d, "README.md")) else ""
     meta = {
         "name": name,
         "property": pid,
@@ -60,7 +89,7 @@ for m, r in sorted(rows.items()):
             "demo_fails_with_change": r.get("demo_fails_with"),
             "demo_passes_without_change": r.get("demo_passes_without"),
         },
-        "ran": "tools/eval_mutant.py <dir> %s --confirm : scratch worktree of /repo HEAD + patch, cargo test --workspace --offline, cargo test --test demo with/without the patch, then every check's quick tier (VERIF_SEED default) against the patched worktree" % pid,
+        "ran": "confirmation: tools/eval_mutant.py <dir> %s --confirm (scratch worktree of /repo HEAD + patch, cargo test --workspace --offline, cargo test --test demo with/without the patch); checks: quick tier, default VERIF_SEED, against the patched worktree - final pass tools/eval_final.sh (primary check; all checks when the primary misses)%s" % (pid, "; the entries of the other checks come from the previous full pass" if r.get("also_from_previous_pass") else ""),
         "caught_by": r.get("caught_by", {}),
         "primary_check_catches_it": bool(r.get("primary_caught")),
     }
@@ -72,10 +101,13 @@ lines = []
 lines.append("## 10a. Sensitivity results: seeded changes and which checks catch them\n")
 lines.append("Every change below was written by a fresh sub-agent that was given only the text of one property and a scratch")
 lines.append("worktree (nothing from /verif); the `w4` changes come from a fourth, module-centric wave whose agents were given the")
-lines.append("texts of all 20 properties and one source file each, and named the property their change breaks. Each change was")
+lines.append("texts of all 20 properties and one source file each, and named the property their change breaks; the `w5` changes")
+lines.append("come from the fifth wave (unusual but legal use, section 10). Each change was")
 lines.append("confirmed here in a scratch worktree: it applies to /repo's HEAD, the")
 lines.append("existing 70 tests + 5 doctests pass with it, its demonstration fails with it and passes without it. The checks were")
-lines.append("then run (quick tier, default seed) against the patched worktree. `primary` = the check of the property the change")
+lines.append("then run (quick tier, default seed) against the patched worktree; the table is from the final pass with the final")
+lines.append("simulator sources (`tools/eval_final.sh`: the primary check for every change, all checks where the primary misses; the")
+lines.append("`also` column of changes the primary catches is from the previous full pass). `primary` = the check of the property the change")
 lines.append("was written against; `also` = other checks that report a violation too. Files: `seeded/<name>/`.\n")
 n = len(out)
 caught = sum(1 for m in out if m["primary_check_catches_it"])
@@ -91,33 +123,47 @@ for m in out:
     also = ", ".join(k for k in sorted(cb) if k != pid) or "-"
     lines.append(f"| {m['name']} | {prim} | `{code}` | {also} |")
 lines.append("")
-lines.append("Changes the primary check does not report, and why (none of them was made to pass by loosening anything):")
+lines.append("Changes the primary check does not report, and why (none of them was made to pass by loosening anything).")
+lines.append("Four are reported by no check:")
 lines.append("")
-lines.append("* **C01-w2m2** (`hex_len` treats 4096 as three digits): needs a request-body write with exactly 4103 bytes of output")
-lines.append("  space and >= 4096 bytes offered. That is C19's territory and C19 reports it (`C19.no_progress`); C01's buffer")
-lines.append("  policies draw sizes from 0..12, 13..80, 0..12000 and 64 KiB and hit 4103 with probability ~1e-4 per call.")
-lines.append("* **C09-w2m1** (body-less method with `content-length: 0` accepted, then `proceed()` panics): C09 walks only requests")
-lines.append("  that C17 accepts, so the walk never builds that request; C17 reports it (`C17.invalid_accepted`).")
-lines.append("* **C14-w2m1** (`Location: http:foo`, scheme without `//`): RFC 3986 and the WHATWG URL rules disagree on this form, so it")
-lines.append("  is outside the grammar C14 generates (section 7); the weak garbage-class oracle accepts the result because the host")
-lines.append("  it produces occurs literally in the value.")
-lines.append("* **C14-w2m2** (a stale Location kept from an interim 1xx head when the final 3xx has none): needs two response heads on")
-lines.append("  one flow, the first a non-100 1xx carrying a Location; no scenario sends unsolicited 1xx heads with a Location.")
-lines.append("* **C17-w2m2** (extension methods such as PROPFIND, or lower-case `get`, accepted on HTTP/1.1): C17's quantifier is over")
-lines.append("  the standard methods; extension tokens are not generated.")
-lines.append("* **C09-w3m1** (the analysed flag is set before validation, so a retried write of an invalid request goes through):")
-lines.append("  again only reachable with a request C17 rejects; C17 reports it, including the follow-up panic.")
-lines.append("* **C05-w3m1** (a stale \"nothing new arrived\" cache that is not reset when a 100 Continue is consumed): needs a 100 on")
-lines.append("  the flow, which C05 excludes by its statement (status 100 belongs to C11); C11 and C01 report it.")
-lines.append("* **C10-w3m2** (response bookkeeping only for the first response on a flow): needs a non-100 interim head (103) that the")
-lines.append("  caller keeps polling past; C10 sends none. C15's unsolicited-100 case reports it (`C15.no_redirect_state`).")
-lines.append("* **C06-w3m1** (the body framing of the first non-100 head sticks for the whole call): needs a 102 / 103 head followed by")
-lines.append("  the final head on the same flow, with the caller polling on although the flow is already ready to advance after the")
-lines.append("  1xx (this crate treats every 1xx other than 100 as a final, body-less response - which is what C06 states); no")
-lines.append("  scenario polls past readiness with a different head, and no check reports this change.")
-lines.append("* **C17-w3m1** (the coding-name comparison accepts prefixes, so `Transfer-Encoding: chunk` or an empty value counts as")
-lines.append("  chunked on the request side): C17 classifies a Transfer-Encoding other than chunked as DontCare (the statement does")
-lines.append("  not say whether such a request is valid); C04, C06 and C08 report the change.")
+NOTES_NONE = {
+ "C14-w2m1": "(`Location: http:foo`, scheme without `//`): RFC 3986 and the WHATWG URL rules disagree on this form, so it is outside the grammar C14 generates (section 7); the weak garbage-class oracle accepts the result because the host it produces occurs literally in the value.",
+ "C17-w2m2": "(extension methods such as PROPFIND, or lower-case `get`, accepted on HTTP/1.1): C17's quantifier is over the standard methods; extension tokens are not generated.",
+ "C17-w5m1": "(a Host value with obs-text bytes that happen to be valid UTF-8 is accepted): a non-textual Host is a DontCare cell of C17's reference - the statement lists the classes that must be refused and a non-textual Host is not among them, while the crate refuses it; neither behaviour is judged.",
+ "C05-w5m3": "(the *partial* response parser forgets the version and reports HTTP/1.1): visible only in the response that the truncated-3xx leniency (known finding D6) hands out for an HTTP/1.0 head, or as the version of a partial parse through the public parser; no statement fixes the version of a partial result, and a response on a strict prefix is already the listed finding.",
+}
+NOTES_OTHER = {
+ "C01-w2m2": "(`hex_len` treats 4096 as three digits): needs a request-body write with exactly 4103 bytes of output space and >= 4096 bytes offered - C19's territory; C01's buffer policies hit 4103 with probability ~1e-4 per call.",
+ "C09-w2m1": "(body-less method with `content-length: 0` accepted, then `proceed()` panics): C09 walks only requests that C17 accepts.",
+ "C09-w3m1": "(the analysed flag is set before validation, so a retried write of an invalid request goes through): again only reachable with a request C17 rejects.",
+ "C05-w3m1": "(a stale \"nothing new arrived\" cache that is not reset when a 100 Continue is consumed): needs a 100 on the flow, which C05 excludes by its statement (status 100 belongs to C11).",
+ "C17-w3m1": "(the coding-name comparison accepts prefixes, so `Transfer-Encoding: chunk` or an empty value counts as chunked on the request side): C17 classifies a Transfer-Encoding other than chunked as DontCare.",
+ "C01-w5m2": "(`consume_direct_write` never ends a sized body): the direct-write report is an operation of C04's op sequences; C01's world sends the body through `write`.",
+ "C01-w5m3": "(a plain push instead of the once-only helper in one branch of `try_read_100`: the sixth poll past the decision overflows the list): needs a caller that keeps polling `try_read_100` after `can_keep_await_100()` turned false, six times; C01's callers consult the query. C09 (calls repeated after they have decided) and C12 report it.",
+ "C03-w5m1": "(`Call::into_receive` accepts an unfinished chunked body): a premature advance on the single-call API; C03 advances only when finished. C04's closing clause (advance succeeds iff finished, on both APIs) reports it.",
+ "C09-w5m1": "(direct-write accounting decides `ended` from the count before the subtraction) and",
+ "C09-w5m2": "(`into_receive` checks \"head written\" instead of \"body ended\"): both sit in the Content-Length upload path, which the C09 walk drives through `write`; C04 reports them.",
+ "C18-w5m3": "(the Content-Length overshoot is checked after the write): needs a refused write in the history; C18 is schedule-free. C04 (`refused_write_changed_state`) reports it.",
+ "C06-w5m3": "(a refused Expect suppresses the response body): needs the refusal branch of the Expect handshake before the response, which is C11's history; C06 does not use Expect. C11, C01 and C09 report it.",
+ "C15-w5m2": "(a 3xx that arrives instead of 100 Continue is never a redirect): again the refusal branch of the Expect handshake, C11's history; C15 does not use Expect. C11, C01 and C09 report it.",
+ "C07-w5m3": "(`CONNECT` answered with a non-2xx status is treated as body-less): C07 draws GET / DELETE / OPTIONS; C08 has the CONNECT case and reports it, as do C01, C06, C10, C11 and C09.",
+ "C08-w5m3": "(the close-delimited close reason is recorded in `read()` instead of at the transition): changes nothing C08 states - bytes, counts, readiness; it shows in the reuse verdict after a body nobody read, and C10 and C01 report it.",
+ "C11-w5m2": "(the no-op guard of `Flow<SendRequest>::write` tests \"finished\" instead of \"head written\": a repeated head write emits the terminating chunk): a variant of repaired defect D1; C11's callers do not write the head again once it is complete. C02, C03, C09, C18 and C19 report it.",
+ "C18-w5m2": "(`Flow<SendBody>::write` clips the input to the advertised maximum, which turns data offered with 5..8 bytes of room into the end signal): the advertised amount itself is still consumed in one write - what C18 states. C03 (`premature_terminator`), C04, C19 and five exchange-level checks report it.",
+ "C19-w5m1": "(the request-side `chunked` comparison becomes case-sensitive, so a Content-Length next to `Chunked` wins): C19's requests carry lower-case framing headers; C03 and C18 (mixed-case variants) report it, as do C02, C17 and C01.",
+ "C19-w5m2": "(the body is marked ended even when the terminator did not fit): C19 offers data until the body is through and signals the end once with room to spare; C03 (`lost_terminator`) reports it, as do C01, C09 and C11.",
+ "C19-w5m3": "(`Flow<SendBody>::write` consumes nothing while the await-100 flag is still set): needs an Expect request whose caller gave up waiting; C19's requests have no Expect. C11, C01, C02 and C12 report it.",
+}
+prim_missed = [m for m in out if not m["primary_check_catches_it"]]
+for m in prim_missed:
+    if not m["caught_by"]:
+        lines.append(f"* **{m['name']}** " + NOTES_NONE.get(m["name"], "(no note)"))
+lines.append("")
+lines.append("The others are reported by the check in whose territory their trigger lies (`also caught by` in the table):")
+lines.append("")
+for m in prim_missed:
+    if m["caught_by"]:
+        lines.append(f"* **{m['name']}** " + NOTES_OTHER.get(m["name"], "(reported by " + ", ".join(sorted(m["caught_by"])) + ")"))
 sec = "\n".join(lines) + "\n"
 p = os.path.join(VERIF, "DESIGN.md")
 s = open(p).read()
